@@ -495,6 +495,8 @@ def monitor_poll_step(p):
             step = Fraction(mesh) * d[j]
             want = Fraction(u[j]) + step
             tol = 2 * _ulp(step) + _ulp(row[j])
+            if p.get("forced"):     # force_poll_mesh=True: the poll set is snapped to the search grid (half a search-mesh step at most)
+                tol += Fraction(p["sm"]) / 2
             if abs(Fraction(row[j]) - want) > tol:
                 return "off-mesh", (f"candidate {k} coordinate {j} = {row[j]!r} but incumbent + mesh*direction = "
                                     f"{u[j]!r} + {mesh!r}*{d[j]} = {float(want)!r}")
